@@ -755,8 +755,7 @@ impl Blockchain {
     }
 
     async fn add_block_transactions_back(&mut self, mempool: &mut Mempool, block: &mut Block) {
-        let wallet = mempool.wallet_lock.read().await;
-        let public_key = wallet.public_key;
+        let public_key = mempool.wallet_lock.read().await.public_key;
         if block.creator == public_key {
             let transactions = &mut block.transactions;
             let prev_count = transactions.len();
@@ -778,7 +777,9 @@ impl Blockchain {
                 (prev_count - transactions.len())
             );
             for tx in transactions {
-                mempool.transactions.insert(tx.signature, tx);
+                // through add_transaction, so that the inputs are reserved again, the routing
+                // work is counted and a transaction whose input is taken by now stays out
+                mempool.add_transaction(tx).await;
             }
             mempool.new_tx_added = true;
         }
